@@ -31,7 +31,7 @@ CHECKS["C13"] = dict(
 CHECKS["C16"] = dict(
     cat="translation_validation", design="6/C16",
     technique="vendored reference arrays and digest/CRC/parity vectors of the pinned version, doubly anchored by independent Python implementations of the TLA+-owned definitions (content encoding, GF(2^8) coefficients); current build must load, verify, rebuild and reproduce them",
-    text="Reference version vs current version on stored inputs: 20 golden arrays (both hash kinds, hash sizes 2..16, 1..6 parities, z-parity, split layouts, formats v2/v3, rehash in progress) are loaded, checked, damaged within the parity count in every subset, fixed and compared with vendored manifests; 4404 digest/CRC vectors and 128 parity vectors are recomputed by every implementation variant of the current build.",
+    text="Reference version vs current version on stored inputs: 23 golden arrays (both hash kinds, hash sizes 2..16, 1..6 parities, z-parity, split layouts, formats v2/v3, rehash in progress with distinct seeds, arrays left with an unfinished sync; configuration lines in several orders) are loaded, checked, damaged within the parity count in every subset, fixed and compared with vendored manifests; 4404 digest/CRC vectors and 128 parity vectors are recomputed by every implementation variant of the current build.",
     note="The digests of Murmur3/SpookyHash are numeric functions: decided by recorded reference behaviour plus independent transliterations, not by TLC (DESIGN.md section 8).")
 CHECKS["C07"] = dict(
     cat="fault_enumeration", design="4.2, 6/C07",
